@@ -214,6 +214,9 @@ func (x *rxCtx) term(t *T) (string, bool) {
 
 // progRegex renders a program of the regular subset as a Go regular expression.
 func progRegex(p *Prog) (string, bool) {
+	if p.Pre != nil {
+		return "", false
+	}
 	x := &rxCtx{p: p}
 	return x.seq(p.Body)
 }
